@@ -102,9 +102,12 @@ def run(rep, rng, tier, replay=None):
         fp, fm_, fp2, fm2 = op["f64"], om["f64"], op2["f64"], om2["f64"]
         # difference quotients of f64 runs are meaningless where V is dominated by cancellation
         nn = SC.case_numbers(c)
-        xq = [Fr(b2f(v)) for v in m["x"]]          # debug output is off: take the parameters from the model run (bit-equal)
-        _, ratio, Lm, _, _ = X.v_poly(xq, nn["sig"], [[Fr(t) for t in sh] for sh in nn["shifts"]], [Fr(mm) for mm in nn["masses"]])
-        kap = X.cond_estimate(Lm)
+        finite_x = all(math.isfinite(b2f(v)) and b2f(v) > 0 for v in m["x"])      # parameters that over/underflowed: nothing to differentiate
+        ratio = kap = None
+        if finite_x:
+            xq = [Fr(b2f(v)) for v in m["x"]]          # debug output is off: take the parameters from the model run (bit-equal)
+            _, ratio, Lm, _, _ = X.v_poly(xq, nn["sig"], [[Fr(t) for t in sh] for sh in nn["shifts"]], [Fr(mm) for mm in nn["masses"]])
+            kap = X.cond_estimate(Lm)
         if ratio is None or kap is None or ratio * kap > Fr(10) ** 3:
             ill += 1
         elif not (fp.get("ok") and fm_.get("ok") and fp2.get("ok") and fm2.get("ok")):
